@@ -42,7 +42,7 @@ var parseKinds = []string{"tx", "txs", "block", "header", "group"}
 
 // parsed is what one parser call produced.
 type parsed struct {
-	class string // ok | err | nil-object | panic | ok-nil-header (block only) | ok-nil-element (txs)
+	class string // ok | err | nil-object | panic
 	site  string // panic site
 	pval  string
 	api   string
@@ -110,7 +110,9 @@ func parseOnce(kind string, b []byte) parsed {
 			if p.block == nil {
 				p.class = "nil-object"
 			} else if p.block.Header == nil {
-				p.class = "ok-nil-header" // recorded as an outcome, not demanded by the statement
+				// Header is a required field: the bytes carried a header, the parser dropped it
+				// without an error and callers dereference block.Header
+				p.class, p.api = "nil-object", "UnMarshalBlock-header"
 			}
 		case "header":
 			if p.hdr == nil {
